@@ -998,6 +998,20 @@ def index_strategy(
         strategy = strategy.map(lambda index: index.rename(name))
     if nullable:
         strategy = null_field_masks(strategy, unique=bool(unique))
+
+    for check in checks if checks is not None else []:
+        # for checks with undefined built-in or custom strategies that are
+        # vectorized, apply check function to the entire index.
+        if (
+            check.strategy is None
+            and not STRATEGY_DISPATCHER.get((check.name, pd.Series))
+            and not check.element_wise
+        ):
+            strategy = strategy.filter(
+                lambda index, check=check: check(
+                    index.to_series().reset_index(drop=True)
+                ).check_passed
+            )
     return strategy
 
 
@@ -1297,4 +1311,19 @@ def multiindex_strategy(
             nullable_index,
             [name for name, ix in zip(index_dtypes, indexes) if ix.unique],
         )
+
+    for name, index in zip(index_dtypes, indexes):
+        for check in index.checks:
+            # for checks with undefined built-in or custom strategies that are
+            # vectorized, apply check function to the entire index level.
+            if (
+                check.strategy is None
+                and not STRATEGY_DISPATCHER.get((check.name, pd.Series))
+                and not check.element_wise
+            ):
+                strategy = strategy.filter(
+                    lambda df, name=name, check=check: check(
+                        df[name]
+                    ).check_passed
+                )
     return strategy.map(pd.MultiIndex.from_frame)
